@@ -4,8 +4,8 @@ CONSTANTS
   Slates = {"s1", "s2"}
   Amounts = {1000}
   NFund = 2
-  MaxH = 7
-  MaxLog = 3
+  MaxH = 6
+  MaxLog = 2
   UseLate = FALSE
   UseTtl = FALSE
   UseInvoice = FALSE
@@ -15,7 +15,7 @@ CONSTANTS
   MaxAdv = 1
   MaxFork = 0
   UseScan = FALSE
-  UseAccounts2 = FALSE
+  UseAccounts2 = TRUE
   UseSelf = FALSE
   UseDiverge = FALSE
   UseAdv = FALSE
@@ -24,6 +24,10 @@ INVARIANT TypeOK
 INVARIANT Inv_Exclusive
 PROPERTY Prop_Replay
 PROPERTY Prop_SelectAvoidsReserved
+PROPERTY Prop_Cancel
+PROPERTY Prop_Foreign
+PROPERTY Prop_Paths
+PROPERTY Prop_Ttl
 PROPERTY EmitEdges
 CONSTRAINT Bound
 VIEW View
